@@ -1,13 +1,171 @@
-"""Bounded stand-in for C09: model equality after random operation histories on real projects (never counted as proved)."""
-from .common import Budget
-from .fsharness import run_histories
+"""Bounded stand-in for C09: damage state point files / rename job directories on real projects, then the run-time contracts
+`check() names exactly the damaged jobs`, `open by id never yields a state point hashing to another id`, `repair() restores every
+job whose state point is known, without touching documents or data files` (never counted as proved)."""
+import json
+import os
+import random
+import shutil
 
-RULE = "a case is one executed operation of a random history; non-trivial/distinct = distinct (operation kind, variant) pairs that actually executed"
+from .common import Budget, project_scratch, script_header
+from .fsharness import ref_id, run_histories
+
+RULE = "a case is one (project, damage set) scenario; non-trivial/distinct = distinct (damage kind, cache present, repairable) combinations"
+
+
+def snapshot(p):
+    out = {}
+    for jid in os.listdir(p.workspace):
+        d = os.path.join(p.workspace, jid)
+        files = {}
+        for dp, dn, fn in os.walk(d):
+            for f in fn:
+                if f != "signac_statepoint.json":
+                    files[os.path.relpath(os.path.join(dp, f), d)] = open(os.path.join(dp, f), "rb").read()
+        out[jid] = files
+    return out
+
+
+def damaged_ids(p):
+    bad = set()
+    for jid in os.listdir(p.workspace):
+        fn = os.path.join(p.workspace, jid, "signac_statepoint.json")
+        try:
+            v = json.loads(open(fn, "rb").read().decode())
+            if ref_id(v) != jid:
+                bad.add(jid)
+        except Exception:
+            bad.add(jid)
+    return bad
+
+
+def scenario(rnd, with_cache):
+    """returns (failure description or None, signature)"""
+    import signac
+    from signac.errors import JobsCorruptedError
+    with project_scratch() as p:
+        sps = [{"a": i, "b": rnd.choice(["x", 1.5, None, [1, 2], {"n": i}])} for i in range(rnd.randint(1, 4))]
+        jobs = []
+        for sp in sps:
+            j = p.open_job(sp).init()
+            j.doc["k"] = sp["a"]
+            open(j.fn("data.txt"), "w").write(str(sp))
+            jobs.append(j)
+        if with_cache:
+            p.update_cache()
+        known = {j.id: json.loads(json.dumps(j.statepoint())) for j in jobs}
+        victims = rnd.sample(jobs, rnd.randint(1, min(3, len(jobs))))
+        kinds = []
+        for j in victims:
+            fn = j.fn("signac_statepoint.json")
+            if not os.path.exists(fn):
+                continue
+            kind = rnd.choice(["truncate", "flip", "delete", "foreign", "swap", "rename"])
+            raw = open(fn, "rb").read()
+            if kind == "truncate":
+                open(fn, "wb").write(raw[: rnd.randrange(len(raw))])
+            elif kind == "flip":
+                i = rnd.randrange(len(raw))
+                open(fn, "wb").write(raw[:i] + bytes([rnd.choice([0, 32, 48, 57, 34, 123, 255, raw[i] ^ 1])]) + raw[i + 1:])
+            elif kind == "delete":
+                os.remove(fn)
+            elif kind == "foreign":
+                open(fn, "w").write(json.dumps({"zz": rnd.randrange(1000)}))
+            elif kind == "swap" and len(jobs) > 1:
+                other = rnd.choice([o for o in jobs if o is not j])
+                ofn = other.fn("signac_statepoint.json")
+                if os.path.exists(ofn):
+                    a, b = open(fn, "rb").read(), open(ofn, "rb").read()
+                    open(fn, "wb").write(b)
+                    open(ofn, "wb").write(a)
+            elif kind == "rename":
+                new = ref_id({"renamed": rnd.randrange(10 ** 6)})
+                os.replace(j.path, os.path.join(p.workspace, new))
+            kinds.append(kind)
+        before = snapshot(p)
+        bad = damaged_ids(p)
+        sig = (tuple(sorted(set(kinds))), with_cache)
+        q = signac.Project(p.path)
+        try:
+            q.check()
+            named = set()
+        except JobsCorruptedError as e:
+            named = set(e.job_ids)
+        except Exception as e:
+            return f"check() raised {type(e).__name__}: {e}", sig
+        if named != bad:
+            return f"check() named {sorted(named)} but the damaged jobs (independent hash) are {sorted(bad)}; damage {kinds}", sig
+        for jid in os.listdir(p.workspace):
+            q2 = signac.Project(p.path)
+            try:
+                sp = json.loads(json.dumps(q2.open_job(id=jid).statepoint()))
+            except Exception:
+                continue
+            if ref_id(sp) != jid:
+                return f"opening damaged job {jid} by id yielded a state point hashing to {ref_id(sp)}; damage {kinds}", sig
+        # repair
+        q3 = signac.Project(p.path)
+        recoverable = True
+        for jid in bad:
+            if with_cache and jid in known:
+                continue
+            fn = os.path.join(p.workspace, jid, "signac_statepoint.json")
+            try:
+                v = json.loads(open(fn, "rb").read().decode())
+                tgt = ref_id(v)
+                if not isinstance(v, dict) or (os.path.exists(os.path.join(p.workspace, tgt)) and tgt != jid):
+                    recoverable = False
+                if tgt not in known:
+                    recoverable = False
+            except Exception:
+                recoverable = False
+        try:
+            q3.repair()
+            rep_err = None
+        except JobsCorruptedError as e:
+            rep_err = set(e.job_ids)
+        except Exception as e:
+            return f"repair() raised {type(e).__name__}: {e}; damage {kinds}", sig
+        after = snapshot(p)
+        # documents and data files: every pre-existing file content still exists under some job directory with the same relative name
+        for jid, files in before.items():
+            holders = [a for a in after.values() if all(a.get(k) == v for k, v in files.items())]
+            if files and not holders:
+                return f"repair() changed or lost documents/data files of job directory {jid}; damage {kinds}", sig
+        if recoverable:
+            if rep_err:
+                return f"repair() reported {sorted(rep_err)} although every damaged job is recoverable (cache={with_cache}); damage {kinds}", sig
+            try:
+                signac.Project(p.path).check()
+            except JobsCorruptedError as e:
+                return f"check() still fails after repair(): {sorted(e.job_ids)}; damage {kinds}, cache={with_cache}", sig
+            for jid, sp in known.items():
+                if with_cache and jid in bad:
+                    pass
+        return None, sig + (recoverable,)
 
 
 def run(tier="quick", seed=0):
-    b = Budget(12 if tier == "quick" else 240)
-    r = run_histories(seed + 9, b, n_hist=40 if tier == "quick" else 2000, length=14 if tier == "quick" else 40)
-    r.update(scope="random histories (length 14 quick / 40 thorough) of {init, doc edit/reset, file, remove, clear/reset, re-key by 6 routes, move, clone, handle copy/deepcopy/pickle/reopen/drop, "
-                   "update_cache/restart/delete cache} over 2 projects, 4 keys x 8 values; model equality, check(), listing==len==membership, no temp files, live handles follow -- after every step", rule=RULE)
+    b = Budget(14 if tier == "quick" else 300)
+    r = run_histories(seed + 9, Budget(5 if tier == "quick" else 100), n_hist=12 if tier == "quick" else 800, length=14 if tier == "quick" else 40)
+    evals, distinct = 0, set()
+    n = 60 if tier == "quick" else 5000
+    for k in range(n):
+        if not b.left() or any(f["key"].startswith("corrupt") for f in r["failures"]):
+            break
+        rnd = random.Random((seed + 9) * 7919 + k)
+        with_cache = k % 2 == 0
+        try:
+            bad, sig = scenario(rnd, with_cache)
+        except Exception as e:
+            import traceback
+            bad, sig = f"scenario crashed: {traceback.format_exc()[-600:]}", ("crash",)
+        evals += 1
+        distinct.add(sig)
+        if bad:
+            r["failures"].insert(0, {"key": "corrupt:" + str(sig)[:60], "description": bad,
+                                     "script": script_header() + f"sys.path.insert(0, '/verif')\nimport random\nfrom pybound.c09 import scenario\nbad, sig = scenario(random.Random({(seed + 9) * 7919 + k}), {with_cache})\nassert not bad, bad\n"})
+    r["evaluations"] += evals
+    r["distinct_nontrivial"] += len(distinct)
+    r.update(scope="projects of 1-4 jobs with documents and data files, with/without a persistent cache; 1-3 jobs damaged by truncation at a random offset, single-byte change, "
+                   "deletion, foreign JSON, cross-job swap, directory rename; damage classified by an independent canonical hash; plus random API histories with model equality", rule=RULE)
     return r
